@@ -59,6 +59,15 @@ func genPair(seed uint64, p profile) (v, truth any, feats map[string]int) {
 	return v, truth, g1.feats
 }
 
+// genPairT: the same for a value of a given type.
+func genPairT(seed uint64, p profile, t reflect.Type) (v, truth any) {
+	g1 := newGen(mon.NewRand(seed), p)
+	v = g1.value(t, 0).Interface()
+	g2 := newGen(mon.NewRand(seed), p)
+	truth = g2.value(t, 0).Interface()
+	return v, truth
+}
+
 var (
 	debug  = os.Getenv("C12_DEBUG") != ""
 	stress = os.Getenv("C12_STRESS") != ""
@@ -68,11 +77,12 @@ func TestCheck(t *testing.T) {
 	cfg := mon.Load("C12")
 	rep := mon.NewReporter(cfg,
 		"exploration",
-		"each case = one PRNG-generated value (random type over 35 registered types, named basics, pointers depth 0-3 with nil at any level, slices, maps with 25 key types, any/custom-interface slots, reflect-built compositions; depth<=6, <=~90 nodes) sent through Marshal->copy->Unmarshal and compared with an independently generated identical twin; non-trivial = the encoder accepted it and it has >=3 nodes and at least one pointer, container or interface slot; distinct by rendered value. Every 10th (quick) / 25th (thorough) case additionally sends three generated values through a real interrupted+resumed graph (state set at start, state written by a node, pending node input) with a byte-only store",
+		"each case = one PRNG-generated value (random type over ~60 registered types incl. structs with json tags, eino's schema.Message/Document family, named basics, pointers depth 0-3 with nil at any level, pointers to containers, slices, maps with 25 key types, containers of containers to nesting depth 4, any/custom-interface slots, reflect-built compositions; in switched cases also registered named slice/map types, arrays, interface- and pointer-keyed maps, unregistered named containers, unexported fields, invalid UTF-8, NaN; depth<=6, <=~90 nodes) sent through Marshal->copy->Unmarshal and compared with an independently generated identical twin; non-trivial = the encoder accepted it and it has >=3 nodes and at least one pointer, container or interface slot; distinct by rendered value. Every 10th (quick) / 25th (thorough) case additionally sends three generated values (every third time message-typed: []*schema.Message, *schema.Message, map[string]any of them) through a real interrupted+resumed graph (state set at start, state written by a node, pending node input) with a byte-only store",
 		[]string{
-			"an error from Marshal or Unmarshal is 'loud' and always acceptable (title of the property); it is counted per class, never a violation",
+			"inside the stated universe (registered bool/number/valid-UTF-8 string/named basic types, registered structs with exported fields only, pointers at any depth incl. nil and incl. pointers to containers, unnamed slices, unnamed maps with a basic / named basic / registered struct key type, containers of containers, any / registered-interface fields and elements holding such values) every outcome but an exact round trip is a violation, an error included; outside of it (registered named slice/map types, arrays, interface- or pointer-typed map keys, complex, NaN/Inf, invalid UTF-8, unexported fields, unregistered types, chan/func, a nil interface at the top) an error is 'loud' and fine, a different value or a panic is a violation",
+			"the set of registered types is known to the check statically: eino's builtin basics, what the check registers, and every type schema.Message / schema.Document are made of (documented by compose/checkpoint.go as registered by eino)",
 			"the hooks compose.VerifSerialize/VerifDeserialize are plain aliases of internal/serialization.Marshal/Unmarshal",
-			"not generated (outside the stated universe): arrays, pointer- or interface-typed map keys, named container types, structs with unexported fields, invalid UTF-8, cyclic or aliased pointer graphs, NaN as in-universe value",
+			"not generated: cyclic or aliased pointer graphs, types with custom MarshalJSON/MarshalText; map keys that are pointers are matched by what they point to",
 			"floats are compared with == (so -0 equals +0); nil and empty containers are equal",
 			"the generator's twin value is the ground truth (generation is a pure function of the seed; verified by comparing the twins before use)",
 		},
@@ -131,6 +141,10 @@ func TestCheck(t *testing.T) {
 		rep.Count("pointers_depth>=2", int64(st.deepPtrs))
 		rep.Count("containers", int64(st.containers))
 		rep.Count("interface_slots", int64(st.ifaceSlots))
+		rep.Count("containers_of_containers", int64(st.nested))
+		for _, k := range mon.SortedKeys(st.schema) {
+			rep.Count("schema_structs/"+k, int64(st.schema[k]))
+		}
 		rep.Count("encoded_bytes", int64(len(res.enc)))
 		rep.Count(fmt.Sprintf("depth/%d", min(st.maxDepth, 12)), 1)
 		clean := len(feats) == 0
@@ -138,18 +152,27 @@ func TestCheck(t *testing.T) {
 			rep.Count("clean_values", 1)
 			rep.Count("clean_outcome/"+res.class, 1)
 		}
+		outside := valueIn(truth)
+		if outside == "" {
+			rep.Count("values_inside_universe", 1)
+			rep.Count("inside_outcome/"+res.class, 1)
+		} else {
+			rep.Count("values_outside_universe/"+outside, 1)
+			rep.Count("outside_outcome/"+outside+"/"+res.class, 1)
+		}
 		if res.class == clsEncErr || res.class == clsDecErr {
-			explained := false
-			for k := range feats {
-				if strings.HasPrefix(k, "outside:") || strings.HasPrefix(k, "unsupported:") || k == "top-nil" {
-					explained = true
-				}
+			// a loud refusal of a value outside the universe: its parts that are
+			// inside the universe must still be handled on their own
+			if part, pres := findInsideViolation(truth); part != nil {
+				x := part.v.Interface()
+				cl := classify(x, pres)
+				w := mkWitness("serializer (part "+part.path+" of a refused value)", x, pres, &cl)
+				rep.Violation(cl.signature, fmt.Sprintf("%s of a %s (inside the universe, part %s of a value that was refused as a whole): %s\n  value: %s",
+					pres.class, typeStr(x), part.path, pres.why, clip(renderAny(x), 600)), w)
+				rep.Count("violation_class/"+cl.signature, 1)
 			}
-			if !explained {
-				rep.Count("error_without_generated_cause/"+res.class, 1)
-				if debug {
-					fmt.Printf("DEBUG unexplained %s: %s\n   value: %s\n", res.class, clip(res.why, 300), clip(renderAny(truth), 500))
-				}
+			if debug {
+				fmt.Printf("DEBUG soft %s (%s): %s\n   value: %s\n", res.class, outside, clip(res.why, 300), clip(renderAny(truth), 500))
 			}
 		}
 
